@@ -3,6 +3,8 @@ import OpcuaModel.Model.Graph
 import OpcuaModel.Model.Order
 import OpcuaModel.Model.Parse
 import OpcuaModel.Model.Value
+import OpcuaModel.Model.Json
+import OpcuaModel.Model.Write
 /-! Line-protocol driver: one JSON object per input line → one JSON object per output line.
     It only *evaluates* the model's definitions; it contains no logic of its own beyond decoding. -/
 open Lean Opcua Opcua.IO
@@ -215,6 +217,8 @@ partial def valOf (j : Json) : Except String Val := do
     | "ExtensionObject" => return .extObj (← nodeIdOfJson (← j.getObjVal? "type")) (← treeOf (← j.getObjVal? "tree"))
     | "XmlElement" => return .xmlElem (← treeOf (← j.getObjVal? "tree"))
     | "Enumeration" => return .enumeration (optIntOf v) (← getStr j "string") (← getStr j "name")
+    | "Variant" => return .variant (← valOf v)
+    | "QualifiedName" => return .qname (← getNat j "ns") (← getStr j "name")
     | "ListOf" =>
       let items ← (← getArr j "items").toList.mapM valOf
       return .list (← getStr j "typename") (items.foldr (fun x xs => ValS.cons x xs) ValS.nil)
@@ -247,6 +251,8 @@ partial def valToJson : Val → Json
       | .cons v vs => valToJson v :: go vs
     Json.mkObj [("t", "ListOf"), ("typename", Json.str (ofStr tn)), ("items", Json.arr (go items).toArray)]
   | .enumeration v s n => Json.mkObj [("t", "Enumeration"), ("v", optIntToJson v), ("string", Json.str (ofStr s)), ("name", Json.str (ofStr n))]
+  | .variant inner => Json.mkObj [("t", "Variant"), ("v", valToJson inner)]
+  | .qname ns name => Json.mkObj [("t", "QualifiedName"), ("ns", Json.num (JsonNumber.fromNat ns)), ("name", Json.str (ofStr name))]
   | .pyNone => Json.mkObj [("t", "PyNone")]
 
 /-! ### parse ops (C01–C04, C18) -/
@@ -373,6 +379,93 @@ def opXmlParse (j : Json) : Except String Json := do
   | some t => return Json.mkObj [("tree", treeToJson t)]
   | none => return Json.mkObj [("err", "not-well-formed")]
 
+/-! ### JSON ops (C10) -/
+partial def jsonLiteToJson : Opcua.JsonV → Lean.Json
+  | .null => Lean.Json.null
+  | .bool b => Lean.Json.bool b
+  | .num t => Lean.Json.mkObj [("num", Lean.Json.str (ofStr t))]
+  | .str s => Lean.Json.str (ofStr s)
+  | .arr items => Lean.Json.arr (items.map jsonLiteToJson).toArray
+  | .obj ms => Lean.Json.mkObj [("obj", Lean.Json.arr (ms.map fun m => Lean.Json.arr #[Lean.Json.str (ofStr m.1), jsonLiteToJson m.2]).toArray)]
+
+def opValueJson (j : Lean.Json) : Except String Lean.Json := do
+  let v ← valOf (← j.getObjVal? "val")
+  let fsl ← (do
+    if has j "fs" then
+      (← getArr j "fs").toList.mapM fun p => do
+        let q ← p.getArr?
+        if q.size != 2 then throw "fs pair"
+        return ((← q[0]!.getInt?), strOf (← q[1]!.getStr?))
+    else return [])
+  let fs := fun (i : Int) => (lookup i fsl).getD []
+  match jsonEncode fs v with
+  | .ok none => return Lean.Json.mkObj [("none", Lean.Json.bool true)]
+  | .ok (some t) => return Lean.Json.mkObj [("text", Lean.Json.str (ofStr t))]
+  | .error e => return errJson e
+
+def opJsonParse (j : Lean.Json) : Except String Lean.Json := do
+  let s ← getStr j "text"
+  match parseJson s with
+  | some v => return Lean.Json.mkObj [("json", jsonLiteToJson v)]
+  | none => return Lean.Json.mkObj [("err", "invalid")]
+
+/-! ### write ops (C05–C07, C15, C16) -/
+def attrValOf (j : Json) : Except String AttrVal :=
+  match j with
+  | .bool b => .ok (.bool b)
+  | .str s => .ok (.str (strOf s))
+  | .num _ => do return .int (← j.getInt?)
+  | _ => .error "attr value"
+
+def optNatOf (j : Json) : Option Nat :=
+  match j.getNat? with | .ok n => some n | _ => none
+
+def gnodeOf (j : Json) : Except String GNode := do
+  let attrs ← (← getArr j "attrs").toList.mapM fun p => do
+    let q ← p.getArr?
+    if q.size != 2 then throw "attr pair"
+    return (strOf (← q[0]!.getStr?), (← attrValOf q[1]!))
+  let value ← (do if has j "value" then return some (← valOf (← j.getObjVal? "value")) else return none)
+  return { id := ← getNat j "id", cls := ← getStr j "cls", nodeId := ← nodeIdOfJson (← j.getObjVal? "nid"),
+           browseName := ← getStr j "browse", browseNs := ← getInt j "browse_ns", display := ← getStr j "display",
+           description := ← getStr j "description", dataType := optNatOf (j.getObjValD "dt"),
+           parent := optNatOf (j.getObjValD "parent"), methodDecl := optNatOf (j.getObjValD "md"), attrs := attrs, value := value }
+
+def graphOf (j : Json) : Except String Graph := do
+  let ns ← (← getArr j "namespaces").toList.mapM fun u => do return strOf (← u.getStr?)
+  let nodes ← (← getArr j "nodes").toList.mapM gnodeOf
+  let refs ← (← getArr j "refs").toList.mapM fun p => do
+    match ← natList p with
+    | [a, b, c] => return (a, b, c)
+    | _ => throw "ref triple"
+  let models ← (← getArr j "models").toList.mapM fun m => do
+    let req ← getArr m "required_models"
+    return (⟨optStrOf (m.getObjValD "uri"), optStrOf (m.getObjValD "publication_date"), optStrOf (m.getObjValD "version"),
+      req.toList.map reqModelOf⟩ : ModelElem)
+  return ⟨ns, nodes, refs, models⟩
+
+def wdocToJson (d : WDoc) : Json :=
+  Json.mkObj [("uris", Json.arr (d.uris.map fun u => Json.str (ofStr u)).toArray), ("model_uri", Json.str (ofStr d.modelUri)),
+    ("version", Json.str (ofStr d.version)),
+    ("required", Json.arr (d.required.map fun r => Json.mkObj [("uri", optStrToJson r.uri),
+      ("publication_date", optStrToJson r.publicationDate), ("version", optStrToJson r.version)]).toArray),
+    ("nodes", Json.arr (d.nodes.map fun n => Json.mkObj [("cls", Json.str (ofStr n.cls)),
+      ("attrs", Json.arr (n.attrs.map fun a => Json.arr #[Json.str (ofStr a.1), Json.str (ofStr a.2)]).toArray),
+      ("display", Json.str (ofStr n.display)), ("description", Json.str (ofStr n.description)),
+      ("refs", Json.arr (n.refs.map fun r => Json.arr #[Json.bool r.forward, Json.str (ofStr r.ty), Json.str (ofStr r.other)]).toArray),
+      ("value_text", match n.value with | none => Json.null | some v => Json.str (ofStr (encodeText v true))),
+      ("text", Json.str (ofStr (nodeText n)))]).toArray)]
+
+def opWriteDoc (j : Json) : Except String Json := do
+  let g ← graphOf (← j.getObjVal? "graph")
+  let uri ← getStr j "uri"
+  let incl ← getBool j "outgoing"
+  let lm := (getStrOpt j "last_modified").getD []
+  let pd := (getStrOpt j "publication_date").getD []
+  match writeDoc g uri incl with
+  | .ok d => return Json.mkObj [("doc", wdocToJson d), ("text", Json.str (ofStr (renderDoc d lm pd "<now>".toList)))]
+  | .error e => return errJson e
+
 def dispatch (j : Json) : Except String Json := do
   let op ← (← j.getObjVal? "op").getStr?
   match op with
@@ -393,6 +486,9 @@ def dispatch (j : Json) : Except String Json := do
   | "value.xml" => opValueXml j
   | "value.decode" => opValueDecode j
   | "xml.parse" => opXmlParse j
+  | "value.json" => opValueJson j
+  | "json.parse" => opJsonParse j
+  | "write.doc" => opWriteDoc j
   | "ping" => return Json.mkObj [("pong", Json.bool true)]
   | _ => throw s!"unknown op {op}"
 
